@@ -1,6 +1,6 @@
 (* Proofs about Model/XrLabel.v (labelling logic of pipefunc/map/xarray.py) against Model/XrLabelSpec.v. *)
 From Verif Require Import Base.Prelude Base.StrUtil Base.Index Base.NdArr Model.MapSpec Model.MapSpecSpec
-  Model.XrLabel Model.XrLabelSpec Proofs.StrFacts Proofs.MapSpecFacts.
+  Model.XrLabel Model.XrLabelSpec Proofs.IndexFacts Proofs.StrFacts Proofs.MapSpecFacts.
 
 (* ================================================================ generic facts *)
 Lemma mapM_inv {A B} (f : A -> result B) l : forall r,
@@ -991,3 +991,274 @@ Theorem sel_label_nth {A} (a : nd A) q labels n v :
   NoDup labels -> nth_error labels n = Some v ->
   sel_label a q labels v = nd_index a (slice_key (length (shp a)) q n).
 Proof. intros Hnd Hn. unfold sel_label. now rewrite (pos_of_nth _ _ _ Hnd Hn). Qed.
+
+(* ================================================================ coordinate names do not collide *)
+From Coq Require Import Permutation.
+
+Lemma split_char_nonnil c x : split_char c x <> [].
+Proof.
+  induction x as [|d t IH]; cbn; [discriminate|].
+  destruct (Ascii.eqb c d); [discriminate|]. destruct (split_char c t); discriminate.
+Qed.
+
+Lemma split_char_free c x : mem_char c x = false -> split_char c x = [x].
+Proof.
+  induction x as [|d t IH]; cbn; [reflexivity|]. intros H. apply orb_false_iff in H as [H1 H2].
+  rewrite H1. now rewrite (IH H2).
+Qed.
+
+Lemma split_char_app c x rest :
+  mem_char c x = false -> split_char c (x ++ c :: rest) = x :: split_char c rest.
+Proof.
+  induction x as [|d t IH]; cbn; intros H.
+  - now rewrite Ascii.eqb_refl.
+  - apply orb_false_iff in H as [H1 H2]. rewrite H1. now rewrite (IH H2).
+Qed.
+
+Lemma split_join c l :
+  l <> [] -> (forall x, In x l -> mem_char c x = false) -> split_char c (join [c] l) = l.
+Proof.
+  induction l as [|x l IH]; intros Hne Hfree; [congruence|].
+  destruct l as [|y l'].
+  - cbn. apply split_char_free. apply Hfree. now left.
+  - change (join [c] (x :: y :: l')) with (x ++ [c] ++ join [c] (y :: l')).
+    cbn [app]. rewrite split_char_app by (apply Hfree; now left). f_equal.
+    apply IH; [discriminate|]. intros z Hz. apply Hfree. now right.
+Qed.
+
+Lemma join_inj c l l' :
+  l <> [] -> l' <> [] ->
+  (forall x, In x l -> mem_char c x = false) -> (forall x, In x l' -> mem_char c x = false) ->
+  join [c] l = join [c] l' -> l = l'.
+Proof.
+  intros H1 H2 F1 F2 E. rewrite <- (split_join c l H1 F1), <- (split_join c l' H2 F2). now rewrite E.
+Qed.
+
+Lemma NoDup_concat_nonempty {A} (L : list (list A)) :
+  NoDup (concat L) -> (forall l, In l L -> l <> []) -> NoDup L.
+Proof.
+  induction L as [|l L IH]; intros Hnd Hne; [constructor|]. cbn in Hnd.
+  destruct (NoDup_app_inv _ _ Hnd) as [_ [H2 H3]]. constructor.
+  - intros Hin. destruct l as [|h t]; [now apply (Hne [] (or_introl eq_refl))|].
+    apply (H3 h); [now left|]. apply in_concat. exists (h :: t). split; [assumption|now left].
+  - apply IH; [assumption|]. intros l' Hl'. apply Hne. now right.
+Qed.
+
+Lemma dupd_concat_perm (cm : list (list str * list str)) ax n :
+  Permutation (concat (map snd (dupd key_eqb cm ax (fun old => odefault [] old ++ [n]))))
+              (n :: concat (map snd cm)).
+Proof.
+  induction cm as [|[k' v] cm IH]; cbn.
+  - apply Permutation_refl.
+  - destruct (key_eqb ax k'); cbn.
+    + rewrite <- app_assoc. cbn. apply Permutation_sym, Permutation_middle.
+    + eapply Permutation_trans; [apply Permutation_app_head, IH|]. apply Permutation_sym, Permutation_middle.
+Qed.
+
+Lemma group_concat_perm kept : Permutation (concat (map snd (group kept))) (map fst kept).
+Proof.
+  unfold group.
+  assert (G : forall acc : list (list str * list str),
+    Permutation (concat (map snd (fold_left (fun cm na => dupd key_eqb cm (snd na) (fun old => odefault [] old ++ [fst na])) kept acc)))
+                (concat (map snd acc) ++ map fst kept)).
+  { induction kept as [|[n ax] kept IH]; intros acc; cbn [fold_left map fst snd].
+    - rewrite app_nil_r. apply Permutation_refl.
+    - eapply Permutation_trans; [apply IH|].
+      eapply Permutation_trans; [apply Permutation_app_tail, dupd_concat_perm|].
+      cbn. apply Permutation_middle. }
+  apply (G []).
+Qed.
+
+Lemma dupd_nonempty (cm : list (list str * list str)) ax n :
+  (forall g, In g cm -> snd g <> []) ->
+  forall g, In g (dupd key_eqb cm ax (fun old => odefault [] old ++ [n])) -> snd g <> [].
+Proof.
+  induction cm as [|[k' v] cm IH]; cbn; intros H g Hg.
+  - destruct Hg as [<-|[]]. cbn. discriminate.
+  - destruct (key_eqb ax k').
+    + destruct Hg as [<-|Hg]; [cbn; now destruct v|]. apply H. now right.
+    + destruct Hg as [<-|Hg]; [apply (H (k', v)); now left|]. apply IH; [|assumption].
+      intros g' Hg'. apply H. now right.
+Qed.
+
+Lemma group_nonempty kept : forall g, In g (group kept) -> snd g <> [].
+Proof.
+  unfold group.
+  assert (G : forall acc : list (list str * list str), (forall g, In g acc -> snd g <> []) ->
+    forall g, In g (fold_left (fun cm na => dupd key_eqb cm (snd na) (fun old => odefault [] old ++ [fst na])) kept acc) ->
+    snd g <> []).
+  { induction kept as [|na kept IH]; intros acc H g Hg; cbn [fold_left] in Hg; [now apply H|].
+    apply (IH _ (dupd_nonempty acc (snd na) (fst na) H) g Hg). }
+  apply G. intros g [].
+Qed.
+
+Lemma group_coords_srcs g : concat (map co_srcs (group_coords g)) = snd g.
+Proof.
+  unfold group_coords. destruct (snd g) as [|n0 [|n1 rest]] eqn:E.
+  - destruct (1 <? length (fst g)); reflexivity.
+  - reflexivity.
+  - destruct (1 <? length (fst g)); [|cbn; now rewrite app_nil_r].
+    rewrite map_map. cbn [co_srcs]. generalize (n0 :: n1 :: rest). intros l.
+    induction l as [|x l IH]; cbn; [reflexivity|]. now rewrite IH.
+Qed.
+
+Lemma coords_raw_srcs cm : concat (map co_srcs (coords_raw cm)) = concat (map snd cm).
+Proof.
+  unfold coords_raw. induction cm as [|g cm IH]; cbn; [reflexivity|].
+  now rewrite map_app, concat_app, group_coords_srcs, IH.
+Qed.
+
+Lemma group_coords_name g c :
+  In c (group_coords g) -> snd g <> [] ->
+  co_name c = join (s ":") (co_srcs c) /\ co_srcs c <> [] /\ forall n, In n (co_srcs c) -> In n (snd g).
+Proof.
+  unfold group_coords. destruct (snd g) as [|n0 [|n1 rest]] eqn:E; intros H Hne; [congruence| |].
+  - destruct H as [<-|[]]. cbn. repeat split; [discriminate|auto].
+  - destruct (1 <? length (fst g)).
+    + apply in_map_iff in H as [n [<- Hn]]. cbn. repeat split; [discriminate|]. intros n' [<-|[]]. assumption.
+    + destruct H as [<-|[]]. cbn [co_name co_srcs]. repeat split; [discriminate|auto].
+Qed.
+
+Lemma filter_fst_NoDup {A B} (p : A * B -> bool) l : NoDup (map fst l) -> NoDup (map fst (filter p l)).
+Proof.
+  induction l as [|x l IH]; cbn; intros H; [constructor|]. inversion H as [|? ? Hn Hd]; subst.
+  destruct (p x); cbn; [|now apply IH]. constructor; [|now apply IH].
+  intros Hin. apply Hn. apply in_map_iff in Hin as [y [E Hy]]. apply filter_In in Hy as [Hy _].
+  apply in_map_iff. now exists y.
+Qed.
+
+(* coord_names_distinct: when no array name contains ':' (names are identifiers), the coordinate names
+   written by `_xarray` for one output never collide, so no `coords[name] = ...` overwrites another *)
+Theorem coord_names_distinct specs inputs loadable li o raw :
+  (forall a, In a (all_aspecs specs) -> mem_char ":"%char (aname a) = false) ->
+  coords_raw_of specs inputs loadable li o = Ok raw -> NoDup (map co_name raw).
+Proof.
+  intros Hfree Hraw. unfold coords_raw_of in Hraw.
+  destruct (trace specs) as [tr|e] eqn:Htr; [|discriminate]. cbn [bind] in Hraw.
+  destruct (existsb _ (target_of tr o)); [discriminate|].
+  destruct (existsb (fun na => negb (mem_str (fst na) (map aname (all_aspecs specs)))) (target_of tr o)) eqn:Ex;
+    [discriminate|]. injection Hraw as <-.
+  set (kept := kept_of specs inputs li (target_of tr o)).
+  (* names of the target occur in the specs, hence are ':'-free *)
+  assert (Hkfree : forall n, In n (map fst kept) -> mem_char ":"%char n = false).
+  { intros n Hn. apply in_map_iff in Hn as [[n' ax] [E Hn]]. cbn in E. subst n'.
+    unfold kept, kept_of in Hn. apply filter_In in Hn as [Hn _].
+    assert (In n (map aname (all_aspecs specs))) as Hin.
+    { destruct (mem_str n (map aname (all_aspecs specs))) eqn:M; [now apply mem_str_In|].
+      exfalso. assert (existsb (fun na => negb (mem_str (fst na) (map aname (all_aspecs specs)))) (target_of tr o) = true).
+      { apply existsb_exists. exists (n, ax). split; [assumption|]. cbn. now rewrite M. }
+      congruence. }
+    apply in_map_iff in Hin as [a [<- Ha]]. now apply Hfree. }
+  (* the target has unique names *)
+  assert (Hnd : NoDup (map fst kept)).
+  { unfold kept, kept_of. apply filter_fst_NoDup. unfold target_of.
+    destruct (dget str_eqb tr o) as [l|] eqn:G; cbn; [|constructor].
+    apply (dget_In str_eqb str_eqb_eq) in G. unfold trace in Htr.
+    destruct (mapM _ (mapping_keys specs)) as [rows|] eqn:R; [|discriminate]. cbn [bind] in Htr.
+    injection Htr as <-. apply filter_In in G as [G _].
+    apply mapM_inv in R. destruct (Forall2_In_r _ _ _ _ R G) as [o' [_ Ho']].
+    destruct (trace_one specs o') as [l'|] eqn:T; [|discriminate]. cbn in Ho'. injection Ho' as _ <-.
+    now apply (trace_one_NoDup specs o'). }
+  assert (Hsrcs : NoDup (map co_srcs (coords_raw (group kept)))).
+  { apply NoDup_concat_nonempty.
+    - rewrite coords_raw_srcs. apply (Permutation_NoDup (Permutation_sym (group_concat_perm kept)) Hnd).
+    - intros l Hl. apply in_map_iff in Hl as [c [<- Hc]]. unfold coords_raw in Hc.
+      apply in_flat_map in Hc as [g [Hg Hc]].
+      now destruct (group_coords_name g c Hc (group_nonempty kept g Hg)) as [_ [H _]]. }
+  assert (Hc : forall c, In c (coords_raw (group kept)) ->
+                co_name c = join (s ":") (co_srcs c) /\ co_srcs c <> []
+                /\ forall n, In n (co_srcs c) -> mem_char ":"%char n = false).
+  { intros c Hc. unfold coords_raw in Hc. apply in_flat_map in Hc as [g [Hg Hc]].
+    destruct (group_coords_name g c Hc (group_nonempty kept g Hg)) as [H1 [H2 H3]]. repeat split; [assumption..|].
+    intros n Hn. apply Hkfree. apply H3 in Hn.
+    apply (Permutation_in _ (group_concat_perm kept)). apply in_concat. exists (snd g). split; [|assumption].
+    apply in_map_iff. now exists g. }
+  assert (E : map co_name (coords_raw (group kept)) = map (fun l => join (s ":") l) (map co_srcs (coords_raw (group kept)))).
+  { rewrite map_map. apply map_ext_in. intros c Hin. now destruct (Hc c Hin) as [H _]. }
+  rewrite E. apply NoDup_map_inj_in; [|assumption].
+  intros l l' Hl Hl' Ej. apply in_map_iff in Hl as [c [<- Hcin]]. apply in_map_iff in Hl' as [c' [<- Hcin']].
+  destruct (Hc c Hcin) as [_ [N1 F1]]. destruct (Hc c' Hcin') as [_ [N2 F2]].
+  exact (join_inj ":"%char _ _ N1 N2 F1 F2 Ej).
+Qed.
+
+(* well-formed array names (ArraySpec.__post_init__: identifiers, optionally `scope.name`) contain no ':' *)
+Lemma word_not_colon c : is_word c = true -> Ascii.eqb ":"%char c = false.
+Proof.
+  intros H. destruct (Ascii.eqb ":"%char c) eqn:E; [|reflexivity].
+  apply Ascii.eqb_eq in E. subst c. discriminate H.
+Qed.
+
+Lemma words_nocolon x : forallb is_word x = true -> mem_char ":"%char x = false.
+Proof.
+  induction x as [|c t IH]; cbn [mem_char forallb]; [reflexivity|]. intros H. apply andb_true_iff in H as [H1 H2].
+  now rewrite (word_not_colon c H1), (IH H2).
+Qed.
+
+Lemma is_ident_nocolon x : is_ident x = true -> mem_char ":"%char x = false.
+Proof.
+  destruct x as [|c t]; cbn [is_ident mem_char]; [discriminate|]. intros H. apply andb_true_iff in H as [H1 H2].
+  assert (is_word c = true) as Hw by (unfold is_word; now rewrite H1).
+  now rewrite (word_not_colon c Hw), (words_nocolon t H2).
+Qed.
+
+Lemma split_first_spec c x a b : split_first c x = Some (a, b) -> x = a ++ c :: b.
+Proof.
+  revert a b. induction x as [|d t IH]; intros a b; cbn; [discriminate|].
+  destruct (Ascii.eqb c d) eqn:E.
+  - apply Ascii.eqb_eq in E. subst d. now intros [= <- <-].
+  - destruct (split_first c t) as [[a' b']|]; [|discriminate]. intros [= <- <-]. cbn. f_equal. now apply IH.
+Qed.
+
+Lemma mem_char_app c x y : mem_char c (x ++ y) = mem_char c x || mem_char c y.
+Proof. induction x as [|d t IH]; cbn [app mem_char]; [reflexivity|]. now rewrite IH, orb_assoc. Qed.
+
+Lemma valid_name_nocolon n : valid_name n = true -> mem_char ":"%char n = false.
+Proof.
+  unfold valid_name. destruct (mem_char "."%char n).
+  - destruct (split_first "."%char n) as [[scope nm]|] eqn:E; [|discriminate].
+    intros H. apply andb_true_iff in H as [H1 H2]. apply split_first_spec in E. subst n.
+    rewrite mem_char_app. cbn [mem_char]. rewrite (is_ident_nocolon _ H1), (is_ident_nocolon _ H2). reflexivity.
+  - apply is_ident_nocolon.
+Qed.
+
+Lemma wf_names_nocolon specs :
+  forallb wf_aspec (all_aspecs specs) = true ->
+  forall a, In a (all_aspecs specs) -> mem_char ":"%char (aname a) = false.
+Proof.
+  intros H a Ha. rewrite forallb_forall in H. specialize (H a Ha). unfold wf_aspec in H.
+  apply andb_true_iff in H as [H _]. now apply valid_name_nocolon.
+Qed.
+
+(* the full statements: for well-formed array names nothing else is assumed *)
+Theorem coord_on_axis_full specs inputs loadable li o k cs x :
+  NoDup (out_names specs) -> consistent (all_aspecs specs) = true ->
+  forallb wf_aspec (all_aspecs specs) = true ->
+  one_dimensional specs x -> visible inputs li x = true ->
+  In x (carried (trace_fuel specs) specs o k) ->
+  coords_of specs inputs loadable li o = Ok cs ->
+  (exists c, In c cs /\ co_axes c = [k] /\ In x (co_srcs c))
+  /\ (forall c, In c cs -> In x (co_srcs c) -> co_axes c = [k]).
+Proof.
+  intros Hnd Hc Hwf H1 Hv Hx Hcs. split.
+  - apply (coord_on_axis specs inputs loadable li o k Hnd Hc cs x H1 Hv Hx); [|assumption].
+    intros raw Hraw. apply (coord_names_distinct specs inputs loadable li o raw); [|assumption].
+    now apply wf_names_nocolon.
+  - now apply (coord_only_on_axis specs inputs loadable li o k Hnd Hc cs x).
+Qed.
+
+Theorem zipped_multiindex_full specs inputs loadable li o k cs x z :
+  NoDup (out_names specs) -> consistent (all_aspecs specs) = true ->
+  forallb wf_aspec (all_aspecs specs) = true ->
+  one_dimensional specs x -> visible inputs li x = true ->
+  one_dimensional specs z -> visible inputs li z = true ->
+  In x (carried (trace_fuel specs) specs o k) -> In z (carried (trace_fuel specs) specs o k) ->
+  x <> z ->
+  coords_of specs inputs loadable li o = Ok cs ->
+  exists c, In c cs /\ co_axes c = [k] /\ In x (co_srcs c) /\ In z (co_srcs c)
+            /\ co_name c = join (s ":") (co_srcs c).
+Proof.
+  intros Hnd Hc Hwf H1 Hv H1z Hvz Hx Hz Hne Hcs.
+  apply (zipped_multiindex specs inputs loadable li o k Hnd Hc cs x z); auto.
+  intros raw Hraw. apply (coord_names_distinct specs inputs loadable li o raw); [|assumption].
+  now apply wf_names_nocolon.
+Qed.
